@@ -13,7 +13,7 @@ VARIABLE x
 Lens  == {0, 1, 2, 19, 20, 21, 22, 30, 32, 64, 255, 256, 1024}
 Rels  == {"fresh", "same", "prefix", "extend", "hashlike"}
 Fills == {"rand", "zero", "ones"}
-Ps    == {<<0, 0>>, <<0, 1>>, <<0, 255>>, <<1, 0>>, <<1, 255>>, <<127, 255>>, <<128, 0>>, <<255, 0>>, <<255, 254>>, <<255, 255>>}
+Ps    == {<<0, 0>>, <<0, 1>>, <<0, 255>>, <<1, 0>>, <<1, 255>>, <<127, 255>>, <<128, 0>>, <<255, 0>>, <<255, 254>>, <<254, 255>>, <<2, 1>>, <<1, 2>>, <<255, 255>>}
 \* all entity-type bytes of types/entity_type.rs plus bytes that are no entity type (the mapper does not care)
 EntityBytes == {13, 134, 131, 130, 192, 193, 194, 195, 196, 197, 198, 104, 209, 210, 81, 82, 93, 88, 154, 152, 248, 176, 0, 255}
 PartNums == {0, 1, 63, 64, 127, 128, 255}
